@@ -162,6 +162,10 @@ pub fn run(ctx: &Ctx) -> i32 {
         let cfg = cfg_for(t, exact);
         st.merge(ctx.run_prop(name, total / 2, move || recipe_strategy(len), move |r| Some(Case18::H(HistCase { oracle: "c18".into(), hist: elaborate(&cfg, r) }))));
     }
+    for (name, p) in [("programs-with-large-dimensions", Profile::LargeDims), ("programs-with-wide-magnitudes", Profile::WideMagnitudes)] {
+        let cfg = cfg_for(t, false).with_profile(p, t == Tier::Thorough, crate::exec::IS_F32);
+        st.merge(ctx.run_prop(name, profile_total(t, p), move || recipe_strategy(len), move |r| Some(Case18::H(HistCase { oracle: "c18".into(), hist: elaborate(&cfg, r) }))));
+    }
     // training loops: 2 architectures x batch {unbatched,1,2,3} x activations x costs x update skipping
     let iters = t.pick(4usize, 12);
     st.merge(ctx.run_indexed("training-loops", 2 * 4 * 3 * 2 * 3, None, |i| {
